@@ -20,7 +20,7 @@
 (* every touched object is well formed and owns a block of exactly its     *)
 (* allocation, and no temporary block survives the call.                   *)
 (***************************************************************************)
-EXTENDS Naturals, Integers, Sequences, FiniteSets, TLC, BigZ, Dbl, ApiSig, SemZ, SemQ, SemF, SemN, SemK1, SemK2, SemK4, SemIO, SemR, HookPre, CxxSemF
+EXTENDS Naturals, Integers, Sequences, FiniteSets, TLC, BigZ, Dbl, ApiSig, SemZ, SemQ, SemF, SemN, SemK1, SemK2, SemK3, SemK4, SemIO, SemR, HookPre, CxxSemF
 
 CONSTANTS NZ, NQ, NF, NR            \* pool sizes
 VARIABLES zs, qs, fs, rs,           \* pools
@@ -216,6 +216,7 @@ CallEnd(ev) ==
 (* ---- stateless events: mpn-level and buffer-level functions on caller memory ---- *)
 Fn(ev) == /\ ev.e = "fn" /\ inCall = ""
           /\ (IF ev.f \in FunsK1 THEN PostK1(ev.f, ev.i, ev.o) ELSE IF ev.f \in FunsK2 THEN PostK2(ev.f, ev.i, ev.o) ELSE IF ev.f \in FunsK4 THEN PostK4(ev.f, ev.i, ev.o)
+              ELSE IF ev.f \in FunsK3 THEN PostK3(ev.f, ev.i, ev.o)
               ELSE IF ev.f \in FunsCxxF THEN PostCxxF(ev.f, ev.i, ev.o) ELSE PostN(ev.f, ev.i, ev.o))
           /\ tainted \/ LiveIds(heap) = OwnedZ(zs) \cup OwnedQ(qs) \cup OwnedF(fs) \cup OwnedR(rs) \cup held
           /\ UNCHANGED mvars
